@@ -118,8 +118,11 @@ class staterror_builder:
                 if mask_this_sample.any():
                     if modname not in masks:
                         masks[modname] = mask_this_sample
-                    else:
-                        assert (mask_this_sample == masks[modname]).all()
+                    elif not (mask_this_sample == masks[modname]).all():
+                        raise InvalidModifier(
+                            f"The staterror modifier '{parname}' is applied to different"
+                            + " sets of bins in different samples."
+                        )
 
             # extract sigmas using this modifiers mask
             sigmas = relerrs[masks[modname]]
